@@ -542,31 +542,17 @@ theorem decodeBlockAux_WF (cap : Nat) : ∀ (fuel : Nat) (d : Dec) (bs : Bytes) 
 theorem decodeBlock_WF (cap : Nat) (d : Dec) (bs : Bytes) (hwf : d.tbl.WF) :
     (decodeBlock cap d bs).dec.tbl.WF := decodeBlockAux_WF cap _ d bs [] hwf
 
-/-- settings values are C `unsigned` -/
-def WireOk : Wire → Prop
-  | .settings n => n < 2 ^ 32
-  | .block _ _ => True
-
-theorem recvConn_WF (cap : Nat) : ∀ (ws : List Wire) (d : Dec), d.tbl.WF → (∀ w ∈ ws, WireOk w) →
+theorem recvConn_WF (cap : Nat) : ∀ (ws : List Wire) (d : Dec), d.tbl.WF →
     (recvConn cap d ws).2.1.tbl.WF := by
   intro ws
   induction ws with
-  | nil => intro d hwf _; exact hwf
+  | nil => intro d hwf; exact hwf
   | cons w ws ih =>
-    intro d hwf hok
-    have hoks : ∀ x ∈ ws, WireOk x := fun x hx => hok x (by simp [hx])
-    cases w with
-    | settings n =>
-      have hn : n < 2 ^ 32 := hok (.settings n) (by simp)
-      exact ih _ (Table.WF.setMaxCapacity n hn) hoks
-    | block bs disp =>
-      cases disp with
-      | discard => exact ih _ (decodeBlock_WF cap d bs hwf) hoks
-      | serve =>
-        simp only [recvConn]
-        split
-        · exact decodeBlock_WF cap d bs hwf
-        · exact ih _ (decodeBlock_WF cap d bs hwf) hoks
+    intro d hwf
+    simp only [recvConn]
+    split
+    · exact decodeBlock_WF cap d w.bs hwf
+    · exact ih _ (decodeBlock_WF cap d w.bs hwf)
 
 /-! ### the reference encoder against the decoder, block and connection level -/
 
@@ -608,9 +594,7 @@ theorem decodeBlock_encodeBlock (cap : Nat) (hcap : cap ≤ 2 ^ 28) (d : Dec) (c
     ((encodeBlock d.tbl cs hs).1.length + 1) hwf hok (by omega)
   exact ⟨fs, d', by simpa [decodeBlock] using h, hm, ht, hw⟩
 
-def ItemOk (cap : Nat) : ConnItem → Prop
-  | .block _ hs _ => ∀ h ∈ hs, HeaderOk cap h
-  | .settings n => n < 2 ^ 32
+def ItemOk (cap : Nat) (it : ConnItem) : Prop := ∀ h ∈ it.hs, HeaderOk cap h
 
 theorem recvConn_encodeConn (cap : Nat) (hcap : cap ≤ 2 ^ 28) : ∀ (items : List ConnItem) (d : Dec),
     d.tbl.WF → (∀ it ∈ items, ItemOk cap it) →
@@ -623,26 +607,17 @@ theorem recvConn_encodeConn (cap : Nat) (hcap : cap ≤ 2 ^ 28) : ∀ (items : L
   | cons it items ih =>
     intro d hwf hok
     have hoks : ∀ x ∈ items, ItemOk cap x := fun x hx => hok x (by simp [hx])
-    cases it with
-    | settings n =>
-      have hn : n < 2 ^ 32 := hok (.settings n) (by simp)
-      obtain ⟨ls, d', h, hm, ht⟩ := ih (d.setMaxCapacity n) (Table.WF.setMaxCapacity n hn) hoks
-      exact ⟨ls, d', by simpa [encodeConn, recvConn, Dec.setMaxCapacity] using h,
-        by simpa [servedLists] using hm, by simpa [encodeConn, Dec.setMaxCapacity] using ht⟩
-    | block cs hs disp =>
-      have hokb : ∀ h ∈ hs, HeaderOk cap h := hok (.block cs hs disp) (by simp)
-      obtain ⟨fs, d1, hdec, hmap, ht1, hwf1⟩ := decodeBlock_encodeBlock cap hcap d cs hs hwf hokb
-      obtain ⟨ls, d', h, hm, ht⟩ := ih d1 hwf1 hoks
-      rw [ht1] at h ht
-      cases disp with
-      | discard =>
-        refine ⟨ls, d', ?_, by simpa [servedLists] using hm, by simpa [encodeConn] using ht⟩
-        simp only [encodeConn, recvConn, discardBlock, hdec]
-        exact h
-      | serve =>
-        refine ⟨fs :: ls, d', ?_, by simp [servedLists, hm, hmap], by simpa [encodeConn] using ht⟩
-        simp only [encodeConn, recvConn, hdec]
-        rw [h]
+    have hokb : ∀ h ∈ it.hs, HeaderOk cap h := hok it (by simp)
+    obtain ⟨fs, d1, hdec, hmap, ht1, hwf1⟩ := decodeBlock_encodeBlock cap hcap d it.cs it.hs hwf hokb
+    obtain ⟨ls, d', h, hm, ht⟩ := ih d1 hwf1 hoks
+    rw [ht1] at h ht
+    by_cases hdisp : it.disp = .serve
+    · refine ⟨fs :: ls, d', ?_, by simp [servedLists, hdisp, hm, hmap], by simpa [encodeConn] using ht⟩
+      simp only [encodeConn, recvConn, hdec, hdisp, if_true]
+      rw [h]
+    · refine ⟨ls, d', ?_, by simpa [servedLists, hdisp] using hm, by simpa [encodeConn] using ht⟩
+      simp only [encodeConn, recvConn, hdec, hdisp, if_false]
+      rw [h]
 
 /-! ### a literal representation without its value string -/
 
